@@ -687,6 +687,27 @@ pub fn neg_finished_on_source_error(fail: u8) -> Result<(), FixStreamError> {
     }
     Ok(())
 }
+/// negative: the source error is handled first (`if let`), the `?` that follows can only break with a sink error
+pub fn neg_finished_then_question_mark(fail: u8) -> Result<(), FixStreamError> {
+    let mut f = FixFormatter { open: false };
+    let fed = feed_formatter(&mut f, fail);
+    if let Err(FixStreamError::Source(e)) = fed {
+        let _ = f.finish();
+        return Err(FixStreamError::Source(e));
+    }
+    fed?;
+    f.finish().map_err(FixStreamError::Sink)
+}
+/// positive: the sink error is handled first, the `?` that follows breaks with the source error and nothing is finished
+pub fn pos_question_mark_before_source_test(fail: u8) -> Result<(), FixStreamError> {
+    let mut f = FixFormatter { open: false };
+    let fed = feed_formatter(&mut f, fail);
+    if let Err(FixStreamError::Sink(e)) = fed {
+        return Err(FixStreamError::Sink(e));
+    }
+    fed?;
+    f.finish().map_err(FixStreamError::Sink)
+}
 /// negative: finished whatever happened, then the first error is reported
 pub fn neg_finished_before_deciding(fail: u8) -> Result<(), FixStreamError> {
     let mut f = FixFormatter { open: false };
@@ -702,4 +723,29 @@ pub fn pos_ignores_argument(_label: &str) -> u64 {
 }
 pub fn neg_uses_argument(label: &str) -> u64 {
     label.len() as u64
+}
+
+// ---------------------------------------------------------------- R15.6 a buffer taken out of self is put back on every path
+pub struct Taken {
+    pub buffer: Vec<u32>,
+    pub n: u32,
+}
+impl Taken {
+    pub fn pos_taken_not_restored(&mut self) -> Option<u32> {
+        let mut buffer = std::mem::take(&mut self.buffer);
+        if self.n == 0 {
+            return buffer.pop();
+        }
+        buffer.push(self.n);
+        self.buffer = buffer;
+        self.buffer.pop()
+    }
+    pub fn neg_taken_and_restored(&mut self) -> Option<u32> {
+        let mut buffer = std::mem::take(&mut self.buffer);
+        if self.n != 0 {
+            buffer.push(self.n);
+        }
+        self.buffer = buffer;
+        self.buffer.pop()
+    }
 }
